@@ -8,6 +8,9 @@ stdin: {"mode": ..., "cases": [...]}
                    `discrete_demographic_events()` and the sizes of the demes it added.
   mode "numeric" : case = {id, jobs: [job...]}; job = {kind: "demes", ...as above} | {kind: "native", ops, ns, pts}
                    | {kind: "explicit_frozen", graph, sampled, ns, frozen: [names], Ne, pts}
+                   | {kind: "prog", calls, pts}: the MODEL's program for a graph (the calls into the numerical layer with their
+                     arguments, as computed by the Coq model) executed call by call with dadi.PhiManip / dadi.Integration /
+                     Spectrum.from_phi - the equivalent hand-written dadi model of that graph; dadi.Demes is not involved
                    returns the spectra (data + mask) of all jobs
   mode "export"  : case = {id, ops, ns, pts, Nref, gen_time}: runs a native dadi program with the event log on, exports it with
                    dadi.Demes.output, re-imports with from_demes (logged); returns both spectra, both call logs, the exported graph
@@ -254,6 +257,75 @@ def run_native(ops, ns, pts, all_funcs=False):
     fs = dadi.Spectrum.from_phi(phi, ns, [xx] * phi.ndim)
     return fs
 
+MODEL_SPLITS = {'phi_1D_to_2D': 1, 'phi_2D_to_3D_split_1': 2, 'phi_2D_to_3D_split_2': 2}
+
+def model_sizefn(s):
+    """a size argument of the model's program: a number, or the closure the model says is handed to the integrator"""
+    k = s[0]
+    if k == 'num':
+        return s[1]
+    if k == 'const':
+        return lambda t, a=s[1]: a
+    if k == 'lin':
+        return lambda t, a=s[1], b=s[2], T=s[3]: a + t / T * b
+    if k == 'exp':
+        return lambda t, a=s[1], r=s[2], T=s[3]: a * r ** (t / T)
+    raise ValueError(s)
+
+def run_model_prog(calls, pts):
+    """executes the model's program (the equivalent native dadi model of a graph, as the Coq model states it: function
+    names and arguments of the calls into the numerical layer) call by call with the public dadi API; nothing of
+    dadi.Demes is involved.  Returns the spectrum of its from_phi call."""
+    xx = dadi.Numerics.default_grid(pts)
+    phi = None; fs = None
+    for c in calls:
+        fn = c['fn']
+        if fs is not None:
+            raise ValueError('call %s after from_phi' % fn)
+        if fn == 'phi_1D':
+            phi = PhiManip.phi_1D(xx, nu=c['fs'][0])
+            continue
+        d = phi.ndim
+        if fn in INTEG_FUNCS:
+            if INTEG_FUNCS.index(fn) + 1 != d or len(c['nus']) != d or len(c['fr']) != d or len(c['fs']) != d * (d - 1):
+                raise ValueError('%s with %d nus / %d rates / %d flags on a %d-dimensional density' % (fn, len(c['nus']), len(c['fs']), len(c['fr']), d))
+            nus = [model_sizefn(s) for s in c['nus']]
+            if d == 1:
+                phi = Integration.one_pop(phi, xx, c['T'], nu=nus[0], frozen=bool(c['fr'][0]))
+            else:
+                kw = {}
+                pairs = [(a, b) for a in range(1, d + 1) for b in range(1, d + 1) if a != b]       # m12, m13, ..., m21, ...
+                for (a, b), m in zip(pairs, c['fs']):
+                    kw['m%d%d' % (a, b)] = m
+                for a in range(d):
+                    kw['nu%d' % (a + 1)] = nus[a]
+                    kw['frozen%d' % (a + 1)] = bool(c['fr'][a])
+                phi = getattr(Integration, fn)(phi, xx, c['T'], **kw)
+        elif fn in MODEL_SPLITS:
+            if d != MODEL_SPLITS[fn]:
+                raise ValueError('%s on a %d-dimensional density' % (fn, d))
+            phi = getattr(PhiManip, fn)(xx, phi)
+        elif fn in ('phi_2D_to_3D_admix', 'phi_3D_to_4D', 'phi_4D_to_5D'):
+            want = {'phi_2D_to_3D_admix': 2, 'phi_3D_to_4D': 3, 'phi_4D_to_5D': 4}[fn]
+            if d != want or len(c['fs']) != d - 1:
+                raise ValueError('%s with %d proportions on a %d-dimensional density' % (fn, len(c['fs']), d))
+            phi = getattr(PhiManip, fn)(phi, *c['fs'], *([xx] * (d + 1)))
+        elif fn == 'pulse':
+            if c['d'] != d or len(c['fs']) != d - 1 or not 1 <= c['dest'] <= d:
+                raise ValueError('pulse for %d populations into %d with %d proportions on a %d-dimensional density' % (c['d'], c['dest'], len(c['fs']), d))
+            phi = getattr(PhiManip, PULSES[d][c['dest'] - 1])(phi, *c['fs'], *([xx] * d))
+        elif fn == 'remove_pop':
+            phi = PhiManip.remove_pop(phi, xx, c['ns'][0])
+        elif fn == 'reorder_pops':
+            phi = PhiManip.reorder_pops(phi, list(c['ns']))
+        elif fn == 'from_phi':
+            fs = dadi.Spectrum.from_phi(phi, list(c['ns']), [xx] * d)
+        else:
+            raise ValueError('unknown call %r' % (fn,))
+    if fs is None:
+        raise ValueError('the program has no from_phi call')
+    return fs
+
 def run_explicit_frozen(c):
     """from_demes on a graph in which the ancient samples are explicit branch demes, frozen by name: the importer's own
     pipeline with the list of frozen demes supplied from outside (the augmentation step is bypassed)."""
@@ -371,6 +443,8 @@ def main():
                             r = run_demes(j, want_log=bool(j.get('log')))
                         elif j['kind'] == 'native':
                             r = {'fs': fs_out(run_native(j['ops'], j['ns'], j['pts'], all_funcs=bool(j.get('all_funcs'))))}
+                        elif j['kind'] == 'prog':
+                            r = {'fs': fs_out(run_model_prog(j['calls'], j['pts']))}
                         elif j['kind'] == 'explicit_frozen':
                             r = {'fs': fs_out(run_explicit_frozen(j))}
                         else:
